@@ -1639,6 +1639,7 @@ fn find_used_blobs<S>(
 #[allow(missing_docs, unused_imports, dead_code, clippy::all, clippy::pedantic, clippy::nursery)]
 pub mod verif_hooks {
     use super::*;
+    pub use super::SizeStats;
 
     /// What the planner decided for one pack (captured before `filter_index_files` drops index files).
     #[derive(Debug, Clone)]
@@ -1648,7 +1649,8 @@ pub mod verif_hooks {
         pub blob_type: BlobType,
         pub marked: bool,
         pub size: u32,
-        pub to_do: PackToDo,
+        /// `Debug` name of the `PackToDo`
+        pub to_do: String,
     }
 
     /// A finished plan plus the observations the harness compares.
@@ -1719,7 +1721,7 @@ pub mod verif_hooks {
                     blob_type: p.blob_type,
                     marked: p.delete_mark,
                     size: p.size,
-                    to_do: p.to_do,
+                    to_do: format!("{:?}", p.to_do),
                 })
             })
             .collect();
@@ -1808,7 +1810,7 @@ pub mod verif_hooks {
                     blob_type: p.blob_type,
                     marked: p.delete_mark,
                     size: p.size,
-                    to_do: p.to_do,
+                    to_do: format!("{:?}", p.to_do),
                 })
             })
             .collect()
